@@ -60,6 +60,11 @@ def run_call(call, inst, projs, prof, k, sat_cache):
     if rule == "mes":
         out = R.method_of_equal_shares(inst, prof, sat_class=sat, tie_breaking=tb)
         return {"set": sorted(pb.ranks(out)), "val": "0/1"}
+    if rule == "mes_iter":
+        # the increment is money: it is presented in the same unit as costs and budget
+        out = R.method_of_equal_shares(inst, prof, sat_class=sat, tie_breaking=tb,
+                                       voter_budget_increment=pb.num(Fraction(call["inc"]) * k))
+        return {"set": sorted(pb.ranks(out)), "val": "0/1"}
     if rule == "maxw":
         out = R.max_additive_utilitarian_welfare(inst, prof, sat_class=sat,
                                                  inner_algo=MaxAddUtilWelfareAlgo.PRIMAL_DUAL)
